@@ -25,7 +25,7 @@ ASSUMPTIONS = [
     "(cutoff 7-8, tolerance 2e-3 for truncation)",
     "backend-level illegal accesses must raise ValueError or IndexError (RegRefError is an IndexError)",
 ]
-REQUIRED_MONITORS = ["segment:live-set", "segment:tags", "illegal:program-level", "illegal:backend-level"]
+REQUIRED_MONITORS = ["segment:live-set", "segment:tags", "illegal:program-level", "illegal:backend-level", "foreign-successor"]
 
 
 class Model:
@@ -164,7 +164,8 @@ def run_case(hist, rep, env):
     prev = None
     kinds = []
     for si, seg in enumerate(hist["segments"]):
-        prog = sf.Program(prev if prev is not None else hist["n0"])
+        parent = prev if prev is not None else hist["n0"]
+        prog = sf.Program(parent)
         try:
             with prog.context as q:
                 for a in seg:
@@ -310,7 +311,81 @@ def run_case(hist, rep, env):
                     V("%s.%s" % (backend, nm), "illegal-access-changed-state:" + which,
                       "backend.%s on %s mode %d raised but modified the simulator state" % (nm, which, d), detail)
                     return
+        # ---- a successor written for a different branch of the history -----------------------------------
+        if hist.get("foreign", True) and not foreign_successor(hist, rep, env, eng, prog, parent, si, rng, V):
+            return
     rep.seen("history-shapes", "%s:%s" % (backend, "".join(k[0] for k in kinds))[:80])
+
+
+def foreign_successor(hist, rep, env, eng, prog, parent, si, rng, V):
+    """After segment `prog` ran, hand the engine a continuation that was written for a *sibling* of prog (same parent,
+    other subsystems deleted / created).  The engine must refuse it and leave the simulator untouched; if it accepts it,
+    the continuation's register and the simulator's live modes must agree (that is the property).  Returns False when
+    the history cannot be continued."""
+    simrun, sf, ops, pu = env
+    backend = hist["backend"]
+    if rng.random() > 0.5:
+        return True
+    sib = sf.Program(parent)
+    target = sorted(r.ind for r in prog.register)
+    nidx_target = len(prog.reg_refs)
+    try:
+        with sib.context:
+            live0 = [r.ind for r in sib.register]
+            nnew = nidx_target - len(sib.reg_refs)
+            if nnew > 0:
+                ops.New(nnew)
+            allidx = [r.ind for r in sib.register]
+            ndel = len(allidx) - len(target)
+            want_same_sizes = rng.random() < 0.7
+            cand = None
+            if want_same_sizes and 0 < ndel < len(allidx):
+                for _ in range(8):
+                    d = sorted(int(x) for x in rng.choice(allidx, ndel, replace=False))
+                    if sorted(set(allidx) - set(d)) != target:
+                        cand = d
+                        break
+            if cand is None:
+                # different number of live modes: delete one more (or one fewer) than prog did
+                k = ndel + 1 if len(allidx) - ndel >= 2 else ndel - 1
+                if k < 0 or k >= len(allidx):
+                    return True
+                cand = sorted(int(x) for x in rng.choice(allidx, k, replace=False))
+            if cand:
+                ops.Del | tuple(sib.reg_refs[i] for i in cand)
+        sib_live = [r.ind for r in sib.register]
+        if sorted(sib_live) == target and len(sib.reg_refs) == nidx_target:
+            return True
+        cont = sf.Program(sib)
+        if sib_live:
+            with cont.context:
+                ops.Rgate(0.0) | cont.reg_refs[sib_live[0]]
+    except Exception as e:
+        rep.error("foreign_successor:build", e)
+        return True
+    same_sizes = len(sib.reg_refs) == nidx_target and len(sib_live) == len(target)
+    rep.monitor("foreign-successor")
+    rep.observe("foreign-successor:%s" % ("same-sizes" if same_sizes else "different-sizes"))
+    before = raw_state(eng.backend)
+    try:
+        eng.run(cont)
+    except Exception as e:
+        rep.observe("foreign-successor:refused:" + type(e).__name__)
+        if not same_raw(before, raw_state(eng.backend)):
+            V("Engine.run", "foreign-successor-changed-state", "a program written for another branch (live modes %s, engine holds %s) "
+              "was refused with %s but the simulator state changed" % (sib_live, target, type(e).__name__), {"segment": si})
+            return False
+        return True
+    reg = [r.ind for r in cont.register]
+    bm = [int(x) for x in eng.backend.get_modes()]
+    if reg != bm:
+        V("Engine.run", "foreign-successor-accepted" + (":same-sizes" if same_sizes else ""),
+          "after segment %d the engine holds live modes %s; a continuation written for a sibling branch with live modes %s "
+          "(%d subsystem indices vs %d) was accepted: Program.register = %s, backend.get_modes() = %s" % (
+              si, target, sib_live, len(sib.reg_refs), nidx_target, reg, bm), {"segment": si})
+    else:
+        rep.observe("foreign-successor:accepted-and-consistent")
+    return False
 
 
 def load():
